@@ -230,14 +230,35 @@ Exp(f, a, kinds) ==
     [] f = "substring_index" -> One(VS(SubstringIndex(a[1], a[2], a[3])))
     [] OTHER -> Assert(FALSE, <<"unknown function", f>>)
 
+\* LOCATE as the engine computes it (recorded defects): positions counted in BYTES of the UTF-8 text,
+\* a panic for an empty haystack with pos > 1, a NULL position read as 1
+LocB(sub, s, pos) ==
+  LET b == Bytes(s) q == Bytes(sub) IN
+  IF pos <= 0 \/ (Len(b) > 0 /\ pos > Len(b)) THEN VI(0)
+  ELSE IF q = <<>> /\ b = <<>> THEN VI(IF pos = 1 THEN 1 ELSE 0)
+  ELSE IF b = <<>> /\ pos > 1 THEN VE
+  ELSE IF q = <<>> THEN VI(pos)
+  ELSE \* the text is cut at byte pos; every byte of a character cut in the middle becomes U+FFFD (3 bytes)
+       LET rest == Drop(b, pos - 1)
+           cont == {i \in DOMAIN rest : \A j \in 1..i : rest[j] >= 128 /\ rest[j] <= 191}
+           k == Cardinality(cont)
+           mapped == Rep(<<239, 191, 189>>, k) \o Drop(rest, k)
+           p == FindFrom(q, mapped, 1)
+       IN VI(IF p = 0 THEN 0 ELSE p - 1 + pos)
+
 \* recorded deviations of the engine: <<[n |-> name, v |-> value]>>
 Dev(f, a, kinds) ==
-  IF f \notin {"field", "elt", "char"} /\ AnyNull(a, kinds) THEN <<>>
+  IF f = "locate3" /\ a[3] = NULLI /\ a[1] # NULLS /\ a[2] # NULLS
+  THEN <<[n |-> "null-position-read-as-1", v |-> LocB(a[1], a[2], 1)]>>
+  ELSE IF f \notin {"field", "elt", "char"} /\ AnyNull(a, kinds) THEN <<>>
   ELSE CASE f = "lpad" /\ (HasMB(a[1]) \/ HasMB(a[3])) -> <<[n |-> "bytecount", v |-> VX(LpadB(a[1], a[2], a[3]))]>>
          [] f = "rpad" /\ (HasMB(a[1]) \/ HasMB(a[3])) -> <<[n |-> "bytecount", v |-> VX(RpadB(a[1], a[2], a[3]))]>>
          [] f = "insert" /\ (HasMB(a[1]) \/ HasMB(a[4])) -> <<[n |-> "bytecount", v |-> VX(InsertB(a[1], a[2], a[3], a[4]))]>>
          [] f = "repeat" /\ a[2] < 0 -> <<[n |-> "negative-count-error", v |-> VE]>>
          [] f = "find_in_set" /\ a[1] = <<>> /\ Join(Tail(a), COMMA) = <<>> -> <<[n |-> "empty-list-found", v |-> VI(1)]>>
+         [] f \in {"locate2", "position"} /\ HasMB(a[2]) -> <<[n |-> "byteposition", v |-> LocB(a[1], a[2], 1)]>>
+         [] f = "locate3" /\ a[2] = <<>> /\ a[3] > 1 -> <<[n |-> "empty-haystack-panic", v |-> LocB(a[1], a[2], a[3])]>>
+         [] f = "locate3" /\ HasMB(a[2]) -> <<[n |-> "byteposition", v |-> LocB(a[1], a[2], a[3])]>>
          [] OTHER -> <<>>
 
 \* the regions the manual leaves open (accepted sets with more than one member)
